@@ -202,8 +202,15 @@ def finish(prop, mod, tier, seed, total, wall, nshards, done, harness_errors):
         else:
             listed.setdefault(k["line"], (k, []))[1].append((sig, v, path))
 
-    # replay every distinct violation twice; it must reproduce deterministically
-    for sig, v, path in unlisted[:40] + [x for _, (_, l) in listed.items() for x in l[:2]]:
+    # Replay every distinct violation twice from its recorded case on fresh objects.
+    # - deterministic and reproduced        -> confirmed violation (VIOLATION line, exit 1)
+    # - deterministic but not reproduced    -> the violation depended on state carried over from earlier cases of
+    #   the same shard (e.g. the implementation corrupted a shared object). It is reported as UNCONFIRMED. If no
+    #   violation of this run is confirmed, the run is a harness error (exit 2), never a silent pass.
+    # - non-deterministic replay or crash   -> harness error (exit 2)
+    confirmed, unconfirmed = [], []
+    to_replay = [(x, False) for x in unlisted[:60]] + [(x, True) for _, (_, l) in listed.items() for x in l[:2]]
+    for (sig, v, path), is_known in to_replay:
         try:
             r1 = sorted(s for s, _ in mod.replay(v.case))
             r2 = sorted(s for s, _ in mod.replay(v.case))
@@ -216,14 +223,25 @@ def finish(prop, mod, tier, seed, total, wall, nshards, done, harness_errors):
         if r1 != r2:
             harness_errors.append(f"replay of {sig} not deterministic: {r1} vs {r2}")
         elif sig not in r1:
-            harness_errors.append(f"replay of {sig} did not reproduce it (got {r1[:3]})")
+            if is_known:
+                harness_errors.append(f"replay of known finding {sig} did not reproduce it (got {r1[:3]})")
+            else:
+                unconfirmed.append((sig, v, path))
+        elif not is_known:
+            confirmed.append((sig, v, path))
+    if unconfirmed and not confirmed:
+        for sig, v, path in unconfirmed[:5]:
+            harness_errors.append(f"replay of {sig} did not reproduce it and no other violation was confirmed")
+    not_replayed = unlisted[60:]
 
     for line, (k, lst) in listed.items():
         print(f"KNOWN-FINDING: property={prop} {k['sig']} ({len(lst)} signature(s), e.g. {lst[0][1].detail[:160]}) :: {k['text']}")
-    for sig, v, path in unlisted[:20]:
+    for sig, v, path in (confirmed + not_replayed)[:20]:
         print(f"VIOLATION property={prop} replay={path} sig={sig} :: {v.detail[:300]}")
-    if len(unlisted) > 20:
-        print(f"... and {len(unlisted) - 20} more distinct violation signatures")
+    if len(confirmed) + len(not_replayed) > 20:
+        print(f"... and {len(confirmed) + len(not_replayed) - 20} more distinct violation signatures")
+    for sig, v, path in unconfirmed[:10]:
+        print(f"UNCONFIRMED (seen during exploration, not reproduced from a fresh state; state carried between cases): sig={sig} :: {v.detail[:200]}")
 
     # vacuity guard
     min_nt = getattr(mod, "MIN_NONTRIVIAL", {}).get(tier, 2) if isinstance(getattr(mod, "MIN_NONTRIVIAL", 2), dict) else getattr(mod, "MIN_NONTRIVIAL", 2)
@@ -262,6 +280,7 @@ def finish(prop, mod, tier, seed, total, wall, nshards, done, harness_errors):
         "shards": {"total": nshards, "completed": done},
         "known_findings_matched": sorted({k["sig"] for _, (k, _) in listed.items()}),
         "unlisted_violation_signatures": [s for s, _, _ in unlisted][:50],
+        "unconfirmed_on_replay": [s for s, _, _ in unconfirmed][:50],
         "explanation": getattr(mod, "EXPLANATION", ""),
         "harness_errors": harness_errors,
     }
